@@ -190,6 +190,37 @@ Example c13_cached_manager_refuted :
   mode_after false [([1%nat], true); ([1%nat], false)] 71 = Some ModeTLS.
 Proof. vm_compute. split; reflexivity. Qed.
 
+(* ---- a RUNNING listener updated through connHandler.AddOrUpdateListener (LDS) ----
+   `tls_update_ctxs_before_manager` / `tls_update_insp_before_manager` are read from the update branch on this run: every
+   rawConfig field NewTLSServerContextManager reads is assigned before the manager is rebuilt from rawConfig. *)
+Theorem c13_update_fields_before_manager : tls_update_ctxs_before_manager = true /\ tls_update_insp_before_manager = true.
+Proof. exact (conj (eq_refl true) (eq_refl true)). Qed.
+(* For EVERY history of AddOrUpdateListener calls on one listener: the manager in force is the one built from the LAST
+   request (contexts AND inspector) and the stored config is the last request. *)
+Theorem c13_listener_policy_is_latest : forall h c,
+  lis_after tls_update_ctxs_before_manager tls_update_insp_before_manager None (h ++ [c]) = Some (mkLR (built c) c).
+Proof. exact listener_policy_is_latest. Qed.
+Print Assumptions c13_listener_policy_is_latest.
+(* plaintext is served iff the CURRENT config says inspector = true (and the client does not start with a TLS record) *)
+Theorem c13_listener_inspector_after_updates : forall h ctxs insp b,
+  ctxs <> [] ->
+  match lis_mode_after tls_update_ctxs_before_manager tls_update_insp_before_manager (h ++ [(ctxs, insp)]) b with
+  | Some m => serves_plain m = true <-> (insp = true /\ b <> 22%N)
+  | None => False
+  end.
+Proof. exact listener_inspector_after_updates. Qed.
+Theorem c13_listener_observe_latest : forall h ctxs insp x,
+  lis_observe tls_update_ctxs_before_manager tls_update_insp_before_manager (h ++ [(x :: ctxs, insp)]) = Some (insp, x).
+Proof. exact listener_observe_latest. Qed.
+(* the inspector flag assigned after the manager is rebuilt: the manager lags exactly one update behind (true -> false keeps
+   serving plaintext, false -> true refuses it, a second identical update is right) *)
+Example c13_listener_inspector_lag_refuted :
+  lis_observe true false [([1%nat], true); ([1%nat], false)] = Some (true, 1%nat) /\
+  lis_observe true false [([1%nat], false); ([2%nat], true)] = Some (false, 2%nat) /\
+  lis_observe true false [([1%nat], true); ([1%nat], false); ([1%nat], false)] = Some (false, 1%nat) /\
+  lis_observe true true [([1%nat], true); ([1%nat], false)] = Some (false, 1%nat).
+Proof. vm_compute. repeat split; reflexivity. Qed.
+
 (* ---- SDS providers: the context in force over a history of secret pushes and config updates ---- *)
 Theorem c13_sds_update_always_installs : sds_update_always_installs = true.
 Proof. exact (eq_refl true). Qed.
